@@ -605,3 +605,33 @@ Definition py_eq_obj (a b : pv) : pr bool :=
   | VObj _ _, _ | _, VObj _ _ => POk false
   | _, _ => py_eq a b
   end.
+
+(* ---------- additions for loops over ranges / enumerations (fifth group) ---------- *)
+
+Definition py_to_bytes_be (v k : pv) : pr pv :=
+  match vint v, vint k with
+  | Some n, Some kk =>
+      if (kk <? 0)%Z then PRaise ValueError else
+      match to_bytes_be (Z.to_nat kk) n with
+      | Some b => POk (VBytes b)
+      | None => PRaise OverflowError
+      end
+  | _, _ => PStuck
+  end.
+
+(* list(range(n)) *)
+Definition py_range (v : pv) : pr pv :=
+  match vint v with
+  | Some n => POk (VList (map (fun i => VInt (Z.of_nat i)) (seq 0 (Z.to_nat n))))
+  | None => PRaise TypeError
+  end.
+
+(* list(enumerate(c, start)) as a list of [index; item] pairs *)
+Definition py_enumerate (c start : pv) : pr pv :=
+  match vint start with
+  | Some s0 =>
+      pbind (py_iter c) (fun l =>
+        POk (VList (map (fun p => VList [VInt (s0 + Z.of_nat (fst p)); snd p])
+                        (combine (seq 0 (length l)) l))))
+  | None => PStuck
+  end.
